@@ -9,7 +9,8 @@
 (***************************************************************************)
 EXTENDS MCV2Table, IOUtils
 
-VARIABLES l, xp          \* xp: playlist id -> the exported flag last written for it (a column the storage model does not carry)
+VARIABLES l, xp, lt      \* xp / lt: playlist id -> the exported flag / the last-edit time last written for it (columns the storage
+                        \* model does not carry; the time is logged as a decimal string of whole seconds since the epoch)
 Log == ndJsonDeserialize(IOEnv.TRACE)
 Has(r, f) == f \in DOMAIN r
 ToSet(s) == {s[k] : k \in DOMAIN s}
@@ -23,12 +24,15 @@ RawStore(raw) ==
      T |-> {}, sp |-> SeqOf(raw, "Playlist"), se |-> SeqOf(raw, "PlaylistEntity"), stt |-> 0]
 
 \* what the table API's read functions must return on store S
-ReadsOK(r, S, XP) ==
+ReadsOK(r, S, XP, LT) ==
     LET L == DOMAIN S.P
         o == r.obs IN
     \* the two boolean columns, stored and read back: persisted as written (TRUE throughout), exported as last written
     /\ \A x \in ToSet(r.raw.plx) : x[1] \in L /\ x[2] = 1 /\ x[3] = (IF XP[x[1]] THEN 1 ELSE 0)
     /\ \A x \in ToSet(o.lists) : x.id \in L => x.row.persisted = TRUE /\ x.row.exported = XP[x.id]
+    \* the last-edit time of a playlist row is not maintained by the database: it reads back as last written (C18), whatever
+    \* side of the epoch it lies on
+    /\ \A x \in ToSet(o.lists) : x.id \in L => x.row.let = LT[x.id]
     /\ ToSet(o.all_ids) = L /\ Len(o.all_ids) = Cardinality(L)
     /\ o.root_ids = KidsOf(S, 0)
     /\ \A x \in ToSet(o.lists) :
@@ -74,19 +78,23 @@ TCall ==
           /\ LET XP == [id \in DOMAIN res.s.P |->
                             IF res.ok /\ r.op = "pl_add" /\ id = r.new THEN r.exported
                             ELSE IF res.ok /\ r.op = "pl_update" /\ id = r.id THEN r.exported
-                            ELSE xp[id]] IN
-             /\ ReadsOK(r, res.s, XP) /\ NoWrite(r)
-             /\ xp' = XP
+                            ELSE xp[id]]
+                 LT == [id \in DOMAIN res.s.P |->
+                            IF res.ok /\ r.op = "pl_add" /\ id = r.new THEN r.let
+                            ELSE IF res.ok /\ r.op = "pl_update" /\ id = r.id THEN r.let
+                            ELSE lt[id]] IN
+             /\ ReadsOK(r, res.s, XP, LT) /\ NoWrite(r)
+             /\ xp' = XP /\ lt' = LT
           /\ st' = res.s
     /\ l' = l + 1 /\ hist' = hist
 
 TReset ==
     /\ l <= Len(Log)
-    /\ LET r == Log[l] IN r.e = "reset" /\ r.out = "ok" /\ RawStore(r.raw) = EmptyStore /\ ReadsOK(r, EmptyStore, <<>>) /\ NoWrite(r)
-    /\ st' = EmptyStore /\ xp' = <<>> /\ l' = l + 1 /\ hist' = hist
+    /\ LET r == Log[l] IN r.e = "reset" /\ r.out = "ok" /\ RawStore(r.raw) = EmptyStore /\ ReadsOK(r, EmptyStore, <<>>, <<>>) /\ NoWrite(r)
+    /\ st' = EmptyStore /\ xp' = <<>> /\ lt' = <<>> /\ l' = l + 1 /\ hist' = hist
 
-TInit == l = 1 /\ st = EmptyStore /\ hist = <<>> /\ xp = <<>>
+TInit == l = 1 /\ st = EmptyStore /\ hist = <<>> /\ xp = <<>> /\ lt = <<>>
 TNext == TCall \/ TReset
-TSpec == TInit /\ [][TNext]_<<l, st, hist, xp>>
+TSpec == TInit /\ [][TNext]_<<l, st, hist, xp, lt>>
 Accepted == TLCGet("stats").diameter - 1 = Len(Log)
 =============================================================================
